@@ -65,7 +65,7 @@ func (in *Interp) lastIndexBytes(s, sep []*Term) int {
 func opaqueFreeOf(p *Str, sep string) bool {
 	if p.Kind == sGhost {
 		switch p.G.Ctor {
-		case "b64", "b64x", "itoa":
+		case "b64", "b64x", "b64alt", "itoa":
 			return !strings.ContainsAny(sep, "ABCDEFGHIJKLMNOPQRSTUVWXYZabcdefghijklmnopqrstuvwxyz0123456789-_")
 		}
 	}
@@ -176,7 +176,7 @@ func (in *Interp) hasPrefix(s, p *Str) *Term {
 		if a.Kind == sGhost && b.Kind == sBytes && b.B[0].Const {
 			c := byte(b.B[0].Uint())
 			switch a.G.Ctor {
-			case "b64", "b64x":
+			case "b64", "b64x", "b64alt":
 				if !strings.ContainsRune("ABCDEFGHIJKLMNOPQRSTUVWXYZabcdefghijklmnopqrstuvwxyz0123456789-_+/=", rune(c)) {
 					return tFalse
 				}
